@@ -2963,6 +2963,9 @@ def _put_slice_Call_ClassDef_keywords(
 
     nexprs = len(exprs)
 
+    if exprs and start == stop and start < len(body) and (kw := body[start]).f.loc < exprs[-1].f.loc:  # insertion before a keyword which precedes a positional (`f(a, k=1, *b)`), `start + nexprs` is not its index in the merged arglikes
+        start = stop = next(i for i, a in enumerate(self._cached_arglikes()) if a is kw) - nexprs
+
     return _put_slice_Call_ClassDef_arglikes(self, code, start + nexprs, stop + nexprs, '_' + exprs_field, one, options,
                                              kw_only=True)
 
